@@ -31,6 +31,13 @@ fn send(items: &[(&str, i32, bool)]) -> Step {
     act(&refs)
 }
 
+fn sendh(items: &[(&str, i32, bool)]) -> Step {
+    // several lanes of one remote host share a single output (and its dirty list)
+    let ops: Vec<String> = items.iter().map(|(l, v, ow)| format!("@sendh{{host:\"warp://h:9001\",node:\"/r\",lane:{},value:{},ow:{}}}", l, v, ow)).collect();
+    let refs: Vec<&str> = ops.iter().map(|s| s.as_str()).collect();
+    act(&refs)
+}
+
 fn scripts(quick: bool) -> Vec<(Vec<(usize, Step)>, usize)> {
     let mut out: Vec<(Vec<(usize, Step)>, usize)> = vec![];
     // supply bursts far larger than the remote's 8 byte channel
@@ -57,6 +64,10 @@ fn scripts(quick: bool) -> Vec<(Vec<(usize, Step)>, usize)> {
     out.push((sequential(&[vec![send(&[("/t1", 1, false), ("/t1", 2, true), ("/t1", 3, false)])]]), 1));
     out.push((sequential(&[vec![send(&[("/t1", 1, true), ("/t2", 2, false), ("/t1", 3, true), ("/t2", 4, true), ("/t1", 5, false)])]]), 1));
     out.push((sequential(&[vec![send(&[("/t1", 1, false)]), send(&[("/t1", 2, true), ("/t1", 3, true)]), send(&[("/t2", 4, false), ("/t1", 5, true)])]]), 1));
+    // several lanes behind one remote host: interleaved targets buffered in one batch
+    out.push((sequential(&[vec![sendh(&[("x", 41, false), ("y", 42, false), ("x", 43, false)])]]), 1));
+    out.push((sequential(&[vec![sendh(&[("x", 44, false)]), sendh(&[("y", 45, false), ("x", 46, true), ("y", 47, false), ("x", 48, false)])]]), 1));
+    out.push((sequential(&[vec![sendh(&[("x", 49, true), ("y", 50, true)]), sendh(&[("x", 51, true)]), sendh(&[("z", 52, false), ("y", 53, true), ("z", 54, false)])]]), 1));
     out
 }
 
